@@ -124,7 +124,15 @@ pub async fn execute_builtin<S: Runtime + 'static>(
             // These futures live only in this inner scope so that the borrow
             // of `caught` and `env` ends before they are used again below.
             match select(builtin_fut, sigint_fut).await {
-                SelectResult::Left((result, _sigint_fut)) => Some(result),
+                SelectResult::Left((result, mut sigint_fut)) => {
+                    // Signals may have been delivered in the same round as the
+                    // event that let the built-in finish. Poll the other future
+                    // once more so that it records them; otherwise they would be
+                    // dropped along with the future and never handled.
+                    let mut context = std::task::Context::from_waker(std::task::Waker::noop());
+                    _ = sigint_fut.as_mut().poll(&mut context);
+                    Some(result)
+                }
                 SelectResult::Right(((), _builtin_fut)) => None,
             }
         };
@@ -519,6 +527,73 @@ mod tests {
                 result,
                 Break(Divert::Interrupt(Some(ExitStatus::from(SIGINT))))
             );
+        })
+    }
+
+    #[test]
+    fn signal_caught_when_interruptible_builtin_finishes_is_not_lost() {
+        use yash_env::system::Pipe as _;
+        use yash_env::system::Read as _;
+        use yash_env::system::concurrency::Select as _;
+        use yash_env::system::Write as _;
+        use yash_env::system::r#virtual::SIGUSR1;
+        use yash_env::trap::Action;
+        use yash_syntax::source::Location;
+
+        in_virtual_system(|mut env, state| async move {
+            let system = VirtualSystem {
+                process_id: env.main_pid,
+                state,
+            };
+
+            env.options.set(Interactive, On);
+            env.traps
+                .enable_internal_dispositions_for_terminators(&env.system)
+                .await
+                .unwrap();
+            env.traps
+                .set_action(
+                    &env.system,
+                    SIGUSR1,
+                    Action::Command("".into()),
+                    Location::dummy(""),
+                    false,
+                )
+                .await
+                .unwrap();
+
+            // The built-in finishes when a byte arrives in the pipe.
+            let (reader, writer) = env.system.pipe().unwrap();
+            assert_eq!(reader, yash_env::io::Fd(3));
+            env.builtins.insert(
+                "foo",
+                Builtin::new(Mandatory, |env, _args| {
+                    Box::pin(async move {
+                        let mut buffer = [0; 1];
+                        let reader = yash_env::io::Fd(3);
+                        env.system.read(reader, &mut buffer).await.unwrap();
+                        Default::default()
+                    })
+                }),
+            );
+
+            let concurrent = Rc::clone(&env.system);
+            {
+                let command: syntax::SimpleCommand = "foo".parse().unwrap();
+                let mut execute_fut = pin!(command.execute(&mut env));
+                assert_eq!(poll!(execute_fut.as_mut()), std::task::Poll::Pending);
+
+                // The byte and the signal arrive before the shell looks again,
+                // so a single `select` reports both.
+                system.write(writer, b"x").await.unwrap();
+                system.raise(SIGUSR1).await.unwrap();
+                concurrent.select().now_or_never().unwrap();
+                let result = execute_fut.await;
+                assert_eq!(result, Continue(()));
+            }
+
+            let caught = env.traps.take_caught_signal().map(|(signal, _)| signal);
+            assert_eq!(caught, Some(SIGUSR1));
         })
     }
 
